@@ -293,6 +293,39 @@ func checkErrBranchFails(c *Ctx, rule string, exceptions map[string]string, pkgs
 			}
 			info := f.Info()
 			k := 0
+			// the exception table names branches by ordinal; reordering code renumbers them, so the table is applied as
+			// a budget per function: as many swallowing branches as it lists are accepted, one more is reported
+			var budget []string
+			for ek, why := range exceptions {
+				if strings.HasPrefix(ek, f.ID+":err-branch#") {
+					budget = append(budget, why)
+				}
+			}
+			type branch struct {
+				key, ifPos, retPos, cond string
+				bad                      bool
+			}
+			var branches []branch
+			flush := func() {
+				nbad := 0
+				for _, br := range branches {
+					if br.bad {
+						nbad++
+					}
+				}
+				for _, br := range branches {
+					switch why, exact := exceptions[br.key]; {
+					case exact:
+						c.ok(rule, br.key, br.ifPos, "exception: "+why)
+					case !br.bad:
+						c.ok(rule, br.key, br.retPos, "the branch taken on a non-nil error does not return success")
+					case nbad <= len(budget):
+						c.ok(rule, br.key, br.ifPos, "exception (branch moved within the function): "+budget[0])
+					default:
+						c.fail(rule, br.key, br.retPos, "the branch taken when `"+br.cond+"` holds ends in a return that reports success: the failure is swallowed and the caller goes on as if the step had worked")
+					}
+				}
+			}
 			ast.Inspect(f.Decl.Body, func(nd ast.Node) bool {
 				ifs, ok := nd.(*ast.IfStmt)
 				if !ok || len(ifs.Body.List) == 0 {
@@ -327,16 +360,11 @@ func checkErrBranchFails(c *Ctx, rule string, exceptions map[string]string, pkgs
 				k++
 				n++
 				key := f.ID + ":err-branch#" + itoa(k)
-				if why, ok := exceptions[key]; ok {
-					c.ok(rule, key, p.Pos(ifs.Pos()), "exception: "+why)
-					return true
-				}
-				cls := body.classifyReturn(ret)
-				c.check(cls != retSuccess, rule, key, p.Pos(ret.Pos()),
-					"the branch taken on a non-nil error does not return success",
-					"the branch taken when `"+exprString(ifs.Cond)+"` holds ends in a return that reports success: the failure is swallowed and the caller goes on as if the step had worked")
+				branches = append(branches, branch{key: key, ifPos: p.Pos(ifs.Pos()), retPos: p.Pos(ret.Pos()), cond: exprString(ifs.Cond),
+					bad: body.classifyReturn(ret) == retSuccess})
 				return true
 			})
+			flush()
 		}
 	}
 	return n
@@ -370,6 +398,9 @@ func checkGenericErrorDiscipline(c *Ctx, pkgs ...string) {
 	checkPresenceTests(c, "errors-surface.presence-tests", pkgs...)
 	checkAccumulatorsFed(c, "plumbing.accumulators-fed", pkgs...)
 	checkCopyIntoRangeCopy(c, "plumbing.copy-into-range-copy", pkgs...)
+	checkShadowedCaptures(c, "plumbing.shadowed-capture", pkgs...)
+	checkOptionsAppliedToFresh(c, "plumbing.options-applied-to-fresh", pkgs...)
+	checkCancelAfterJoin(c, "conc.cancel-after-join", pkgs...)
 	if n1 == 0 || n2 == 0 {
 		c.fail("errors-surface.error-branch-fails", "instances", "-", "the generic error rules matched no site in "+joinStrings(pkgs))
 	}
